@@ -21,7 +21,7 @@ DATA_CARRIERS = ("nd_f8", "list_nan", "list_none", "list_mixed", "tuple_nan", "t
                  "ma_nan", "ma_adv", "ma_nomask", "ma_i8", "series", "series_shift", "series_none", "dask")
 TIME_CARRIERS = ("dt64ns", "dt64us", "dt64ms", "dt64s", "dt64m", "list_datetime", "list_timestamp", "list_dt64", "dtindex", "dtindex_utc",
                  "series_naive", "series_utc", "series_shift_naive", "epoch_int_list", "epoch_float_list", "epoch_int_nd", "epoch_float_nd",
-                 "tuple_datetime")
+                 "tuple_datetime", "dtindex_freq")
 
 META = dict(
     rule="for each of the 11 tests (1-2 parameter sets): every logical series of length 0..N over {1, 3, missing} (range tests additionally over the float32 roundings of non-dyadic limits; rate_of_change "
@@ -50,7 +50,9 @@ TESTS = {
     "spike_test": [dict(suspect_threshold=0.5, fail_threshold=1.5),
                    # magnitudes at which float32 arithmetic on the neighbours is no longer exact
                    dict(suspect_threshold=1.5, fail_threshold=3, _alphabet="big")],
-    "rate_of_change_test": [dict(threshold=0.02), dict(threshold=1.5, _step=1.5), dict(threshold=0.9, _step=2.25)],
+    "rate_of_change_test": [dict(threshold=0.02), dict(threshold=1.5, _step=1.5), dict(threshold=0.9, _step=2.25),
+                            # monthly sampling (steps of 31 / 29 / 30 days); the threshold separates a 31-day from a 30-day step
+                            dict(threshold=7.6e-7, _months=True)],
     "flat_line_test": [dict(suspect_threshold=60, fail_threshold=120, tolerance=1),
                        # irregular whole-minute sampling whose median step is a half minute (90 s)
                        dict(suspect_threshold=90, fail_threshold=180, tolerance=1, _gaps=[60, 120])],
@@ -136,6 +138,13 @@ def mk_time(secs, c):
         return [np.datetime64(d, "s") for d in pyd]  # whole seconds only (guarded above)
     if c == "dtindex":
         return pd.DatetimeIndex(base.astype("datetime64[ns]"))
+    if c == "dtindex_freq":  # an index that carries its (inferred) frequency: fixed step or calendar based (month starts)
+        if len(secs) < 3:
+            return None
+        try:
+            return pd.DatetimeIndex(base.astype("datetime64[ns]"), freq="infer")
+        except Exception:  # noqa: BLE001
+            return None
     if c == "dtindex_utc":
         return pd.DatetimeIndex(base.astype("datetime64[ns]"), tz="UTC")
     if c == "series_naive":
@@ -155,7 +164,18 @@ def mk_time(secs, c):
     raise KeyError(c)
 
 
-def logical_inputs(name, x, step=None, gaps=None):
+def month_starts(n):
+    out = []
+    y, m = 2020, 1
+    for _ in range(n):
+        out.append(int((dt.datetime(y, m, 1) - dt.datetime(1970, 1, 1)).total_seconds()))
+        m += 1
+        if m > 12:
+            y, m = y + 1, 1
+    return out
+
+
+def logical_inputs(name, x, step=None, gaps=None, months=False, jitter=False):
     """x: logical series (floats / MISS) -> dict axis -> logical values."""
     n = len(x)
     spec = G.SPECS[name]
@@ -172,6 +192,13 @@ def logical_inputs(name, x, step=None, gaps=None):
             d["tinp"] = alpha.times_from_gaps([gaps[i % len(gaps)] for i in range(max(n - 1, 0))])[:n] if n else []
         else:
             d["tinp"] = alpha.regular_secs(n) if step is None else [alpha.T0 + step * i for i in range(n)]
+        if months:
+            d["tinp"] = month_starts(n)
+        if jitter:  # the same axis with every odd timestamp moved by a third of its step
+            t = d["tinp"]
+            d["tinp"] = [t[i] + ((t[i + 1] - t[i]) / 3 if (i % 2 and i + 1 < n) else 0) for i in range(n)]
+            if all(float(v) == int(v) for v in d["tinp"]):
+                d["tinp"] = [int(v) for v in d["tinp"]]
     if name == "pressure_increasing_test":
         d["inp"] = [v for v in x]
     return d
@@ -207,8 +234,11 @@ def call_with(name, cfg, logical, carriers, span_tuple=False):
 
 def check_case(case):
     name, cfg, x = case["fn"], case["cfg"], case["x"]
-    logical = logical_inputs(name, x, cfg.get("_step"), cfg.get("_gaps"))
+    logical = logical_inputs(name, x, cfg.get("_step"), cfg.get("_gaps"), cfg.get("_months", False))
     canon = call_with(name, cfg, logical, {})
+    if case.get("pre_jitter"):
+        # an earlier call in the same process with the same carriers on ANOTHER time axis of the same shape
+        call_with(name, cfg, logical_inputs(name, x, cfg.get("_step"), cfg.get("_gaps"), cfg.get("_months", False), jitter=True), case["carriers"])
     res = call_with(name, cfg, logical, case["carriers"], case.get("span_tuple", False))
     if res is None:
         return [], False, None, 1, 1
@@ -259,6 +289,10 @@ def run_task(task, acc):
 
     def gen():
         long_x = alpha.debruijn(tuple(alphabet), 4) * 2
+        if has_t:
+            for x in (list(long_x), list(alpha.xl(tuple(alphabet), 1500, 3))):
+                for c in TIME_CARRIERS[1:]:
+                    yield dict(fn=name, cfg=cfg, x=x, carriers={"tinp": c}, pre_jitter=True)
         for x in [list(xx) for xx in alpha.all_seqs(alphabet, 0, n)] + [long_x]:
             x = list(x)
             for axis in data_axes:
